@@ -14,11 +14,11 @@ def handSt (s : St) (t r v : Nat) : St :=
 
 /-- one atomic step of the implementation, with the control-state guard that enabled it -/
 inductive Prim (s : St) : St → Prop
-  | sendCheck (t v : Nat) : s.pc t = .idle → Prim s (stepSendCheck s t v)
+  | sendCheck (t v : Nat) : s.pc t = .idle → (s.prog t).head? = some (.send v) → Prim s (stepSendCheck s t v)
   | sendDo (t v : Nat) (s' : St) : s.pc t = .sendChecked → stepSendDo s t v = some s' → Prim s s'
   | abort (t v : Nat) (s' : St) : s.pc t = .sendChecked → stepAbort s t v = some s' → Prim s s'
   | recv (r : Nat) (s' : St) : s.pc r = .idle → stepRecv s r = some s' → Prim s s'
-  | closeCas (t : Nat) : s.pc t = .idle → Prim s (stepCloseCas s t)
+  | closeCas (t : Nat) : s.pc t = .idle → (s.prog t).head? = some .close → Prim s (stepCloseCas s t)
   | closeSignal (t : Nat) : s.pc t = .closeFlagged → Prim s (stepCloseSignal s t)
   | closeFinal (t : Nat) (s' : St) : s.pc t = .closeSignalled → stepCloseFinal s t = some s' → Prim s s'
   | isClosed (t : Nat) : s.pc t = .idle → Prim s (stepIsClosed s t)
@@ -28,9 +28,9 @@ inductive Prim (s : St) : St → Prop
 theorem prim_of_stepRun (s s' : St) (t : Nat) (h : stepRun s t = some s') : Prim s s' := by
   unfold stepRun at h
   split at h
-  · cases h; exact .sendCheck _ _ ‹_›
+  · cases h; exact .sendCheck _ _ ‹_› (by simp [*])
   · exact .recv _ _ ‹_› h
-  · cases h; exact .closeCas _ ‹_›
+  · cases h; exact .closeCas _ ‹_› (by simp [*])
   · cases h; exact .isClosed _ ‹_›
   · exact .sendDo _ _ _ ‹_› h
   · cases h; exact .closeSignal _ ‹_›
